@@ -51,6 +51,11 @@ def main_class_groups(detail=None):
            ('hashmap md5 dill', kmod.hashmap(algorithm='md5', serializer='dill')), ('stringmap', kmod.stringmap()),
            ('stringmap of picklemap dill', kmod.stringmap() + kmod.picklemap(serializer='dill')),
            ('hashmap md5 of picklemap dill protocol=2', kmod.hashmap(algorithm='md5') + kmod.picklemap(serializer='dill', protocol=2))]
+    # every named hash algorithm the library offers (some exist only through hashlib.new), flat and non-flat
+    import klepto.crypto as kc
+    for alg in sorted(a for a in kc.algorithms() if a):
+        kms.append(('hashmap %s' % alg, kmod.hashmap(algorithm=alg)))
+        kms.append(('hashmap %s non-flat' % alg, kmod.hashmap(algorithm=alg, flat=False)))
     if os.environ.get('KV_SESSION_VARIANT', '0') == '1':
         for _, km in kms:
             try:
@@ -58,7 +63,7 @@ def main_class_groups(detail=None):
             except Exception:
                 pass
     calls = [((Point(3, 4),), {}), ((Point(3, 4), 1), {}), ((), {'p': Point(3, 4)}), ((Point(1, 2),), {'start': Point(0, 0)}),
-             ((Point(1, 2), 0, Point(5, 6)), {'w': Point(7, 8)}), (((1, 2, 3),), {}), ((Point,), {}), ((1,), {'start': Point})]      # no functions: their repr holds an address
+             ((Point(1, 2), 0, Point(5, 6)), {'w': Point(7, 8)}), (((1, 2, 3),), {}), ((Point,), {}), ((1,), {'start': Point}), (('text',), {'start': 'word'}), ((b'by', 2.5), {'w': 'x', 'v': None})]      # no functions: their repr holds an address
     out = {}
     for j, (name, km) in enumerate(kms):
         if detail is not None and detail != j:
@@ -100,6 +105,8 @@ def groups(mode, lo, hi, detail=None):
             for si, spec in enumerate(specs_for(shape)):
                 pre = []
                 for (a, k) in calls:
+                    if os.environ.get('KV_SESSION_VARIANT', '0') == '1':
+                        k = list(reversed(k))       # ... and spells every call with its keywords in the opposite order
                     try:
                         pre.append(I._keygen(c, spec, *a, **dict(k)))
                     except Exception as e:      # noqa
